@@ -171,7 +171,9 @@ func (a *recon) equals(v []byte) bool {
 // integers, so that millions of structured strings can be pushed through.
 func (x *ctx) fastCheck(vb []byte) {
 	s := x.h.SVal(vb)
-	bad := func(sig string) { x.fail(sig, "fast path; re-run through the full checker with the replay", ref.FromLE(vb)) }
+	bad := func(sig string) {
+		x.fail(sig, "fast path; re-run through the full checker with the replay", ref.FromLE(vb))
+	}
 	var a recon
 	bits := s.Bits()
 	for i, b := range bits {
